@@ -1214,3 +1214,59 @@ Lemma nested_example :
   = [[[0; 0; 0; 0; 0]]; [[1; 0; 1; 1; 0]]] /\
   disciplined nest_cfg nest_orc ([0;0;0;0;0;0;0] ++ repeat 1 8 ++ [0]) (init_state nest_cfg) nest_threads = false.
 Proof. vm_compute. repeat split. Qed.
+
+(* ================================================================== *)
+(* option flips between / during queries: the invariant depends on the configuration only through its mode *)
+Lemma pc_inv_mode c1 c2 st ow t p : c_mode c1 = c_mode c2 -> pc_inv c1 st ow t p -> pc_inv c2 st ow t p.
+Proof. intros E H. destruct p; cbn in *; auto; congruence. Qed.
+
+Lemma sys_inv_mode c1 c2 orc st ths : c_mode c1 = c_mode c2 -> sys_inv c1 orc st ths -> sys_inv c2 orc st ths.
+Proof.
+  intros E (ow & Hh & Hc & Hall). exists ow. split; [exact Hh|split; [exact Hc|]].
+  rewrite Forall_forall in *. intros th Hin. destruct (Hall th Hin) as [H1 H2]. split; auto.
+  eapply pc_inv_mode; eauto.
+Qed.
+
+Lemma run_segs_inv orc m : m <> MAutoUncached ->
+  forall segs, Forall (fun s => c_mode (fst s) = m) segs ->
+  forall cfg0 st ths st' ths' tr, c_mode cfg0 = m ->
+  NoDup (map t_id ths) -> sys_inv cfg0 orc st ths ->
+  run_segs orc segs st ths = (st', ths', tr) -> sys_inv cfg0 orc st' ths'.
+Proof.
+  intros Hm. induction segs as [|[cfg sched] segs IH]; intros Hall cfg0 st ths st' ths' tr E0 Hnd Hinv Hrun; cbn in Hrun.
+  - inversion Hrun; subst. auto.
+  - inversion Hall; subst. cbn in H1.
+    destruct (run cfg orc sched st ths) as [[st1 ths1] tr1] eqn:Er.
+    destruct (run_segs orc segs st1 ths1) as [[st2 ths2] tr2] eqn:Es. inversion Hrun; subst; clear Hrun.
+    assert (Hcm : c_mode cfg <> MAutoUncached) by congruence.
+    assert (Hinv1 : sys_inv cfg orc st ths) by (eapply sys_inv_mode; [|exact Hinv]; congruence).
+    destruct (run_inv cfg orc Hcm _ _ _ _ _ _ Hnd Hinv1 Er) as [Hi1 Hmap].
+    eapply (IH H2 cfg0 st1 ths1); eauto.
+    + rewrite Hmap. exact Hnd.
+    + eapply sys_inv_mode; [|exact Hi1]. congruence.
+Qed.
+
+(* every tree returned is the asker's, whatever options are flipped between or during the queries *)
+Theorem results_own_reconfigured orc m : m <> MAutoUncached ->
+  forall segs, Forall (fun s => c_mode (fst s) = m) segs ->
+  forall cfg0, c_mode cfg0 = m ->
+  forall ths, NoDup (map t_id ths) -> Forall fresh_thread ths ->
+  forall st' ths' tr, run_segs orc segs (init_state cfg0) ths = (st', ths', tr) ->
+  Forall (results_own orc) ths'.
+Proof.
+  intros Hm segs Hall cfg0 E0 ths Hnd Hfresh st' ths' tr Hrun.
+  destruct (run_segs_inv orc m Hm segs Hall cfg0 _ _ _ _ _ E0 Hnd (init_inv cfg0 orc _ Hfresh) Hrun)
+    as (ow & _ & _ & H).
+  rewrite Forall_forall in *. intros th Hin. apply (H th Hin).
+Qed.
+
+(* the F16 history in the model of the code as it stands: overwrite=True; search A; search B; cache_only := True;
+   search A  ->  the last query RAISES (KeyError), it does not hand out B's tree *)
+Definition flip_orc : oracle :=
+  mkO (fun q => q) (fun _ => true) (fun q o k => Some (Z.of_nat (q + k))) (fun _ _ _ => false) (fun _ => None).
+Lemma flip_example :
+  enc_results (snd (fst (run_segs flip_orc
+     [(mkC MReusable OwTrue false 0 false, repeat 0 14); (mkC MReusable OwTrue true 0 false, repeat 0 4)]
+     (init_state (mkC MReusable OwTrue false 0 false)) [start_thread 7 [0; 1; 0]])))
+  = [[[0; 0; 0; 0; 0]; [1; 0; 1; 1; 0]; [0; 9]]].
+Proof. vm_compute. reflexivity. Qed.
